@@ -242,7 +242,24 @@ func curvedPath(r *rng.R) (*canvas.Path, string) {
 	flatInflectionY = nil
 	g := func(lo, hi int) float64 { return float64(r.Range(lo*4, hi*4)) / 4 }
 	p := &canvas.Path{}
-	switch r.Intn(8) {
+	switch r.Intn(9) {
+	case 8: // circle / ellipse of four cubics (joints with exactly horizontal and vertical tangents), both orientations
+		rx, ry := g(2, 8), g(2, 8)
+		if r.Bool() {
+			ry = rx
+		}
+		cx, cy := g(-3, 3), g(-3, 3)
+		k := 0.5522847498307936
+		p.MoveTo(cx+rx, cy)
+		p.CubeTo(cx+rx, cy+k*ry, cx+k*rx, cy+ry, cx, cy+ry)
+		p.CubeTo(cx-k*rx, cy+ry, cx-rx, cy+k*ry, cx-rx, cy)
+		p.CubeTo(cx-rx, cy-k*ry, cx-k*rx, cy-ry, cx, cy-ry)
+		p.CubeTo(cx+k*rx, cy-ry, cx+rx, cy-k*ry, cx+rx, cy)
+		p.Close()
+		if r.Bool() {
+			p = p.Reverse()
+		}
+		return p, "cubic-circle"
 	case 7: // a cubic with a stationary inflection whose tangent is horizontal (y' = y'' = 0 at t = 1/2: the curve is parallel to the
 		// ray there and still crosses it), running left-to-right or right-to-left, closed by lines above or below
 		ym, d := g(-3, 3), g(1, 4)
